@@ -333,7 +333,7 @@ def allQuirkOff (q : Quirks) : List (String × Quirks) :=
 /-- observable part of an outcome, for "did this quirk matter on this step" -/
 def outKey (o : Out) : String :=
   showV (normErr o.reply) ++ "#" ++ toString (o.crash.isSome) ++ "#" ++
-    toString (repr (modelDump o.st)) ++ toString (repr ((o.st.sessions.map fun (i, s) => (i, s.dbIdx, s.resp, s.queue.isSome, s.watches.length))))
+    toString (repr (modelDump o.st)) ++ toString (repr ((o.st.sessions.map fun (i, s) => (i, s.dbIdx, s.resp, s.queue.isSome, s.watches.map fun (w : Nat × Bytes × Nat) => (w.1, w.2.1.map UInt8.toNat, w.2.2)))))
 
 def step (d : DState) (line : String) : DState × String :=
   match words line with
